@@ -84,7 +84,7 @@ class IdentifierSinex(SiteInfoBase):
                 raise MissingDataError(f"Station {self.station!r} is not given in SITE/ID SINEX block.")
             raw_info = source_data[self.station]["site_id"]
         elif self.station.upper() in source_data:
-            if "site_id" not in source_data[self.station]:
+            if "site_id" not in source_data[self.station.upper()]:
                 raise MissingDataError(f"Station {self.station.upper()!r} is not given in SITE/ID SINEX block.")
             raw_info = source_data[self.station.upper()]["site_id"]
         else:
